@@ -63,6 +63,7 @@ def _strat_circ(draw, tier='quick'):
     prog = draw(c03.strat_program(tier, max_n=4, max_len=8, differentiable_only=True))
     prog['loss'] = draw(st.sampled_from(['abs2', 'real']))
     prog['frozen'] = draw(st.integers(0, 7))
+    prog['train_input'] = draw(st.booleans())
     if draw(st.booleans()):
         # the wrapper stacks trainable gates and placeholder gates of the same name into one tensor: generate that shape on purpose
         name = draw(st.sampled_from(['rx', 'ry', 'rz']))
@@ -100,7 +101,11 @@ def run_circuit(ctx, case):
              nontrivial=bool(sig & {'reuse', 'ctrl-param', 'placeholder', 'custom-unitary', 'multi-ctrl'}), labels=sorted(sig) + [case['loss']] + (['trainable+placeholder same name'] if case.get('mixed_name') else []))
     r = ref.rng(case['prng'])
     tvec = torch.tensor(ref.rand_state(r, 2 ** n))
-    svec = torch.tensor(ref.rand_state(r, 2 ** n))
+    s_np = ref.rand_state(r, 2 ** n)
+    train_input = bool(case.get('train_input'))
+    # the input state may itself be trainable (chained circuits): its gradient is pulled back through the whole circuit
+    s_re = torch.tensor(s_np.real.copy(), requires_grad=train_input)
+    s_im = torch.tensor(s_np.imag.copy(), requires_grad=train_input)
     P = {key: torch.nn.Parameter(torch.tensor(np.array(v, dtype=np.float64))) for key, v in Pvals.items()}
 
     class M(torch.nn.Module):
@@ -116,27 +121,37 @@ def run_circuit(ctx, case):
                     self.ct.setP(P[''], **kw)
                 else:
                     self.ct.setP(**kw)
-            q = self.ct(svec.clone())
+            q = self.ct(torch.complex(s_re, s_im))
             a = torch.vdot(tvec, q)
             return (a * a.conj()).real if case['loss'] == 'abs2' else a.real
     model = M()
-    params = [p for p in model.parameters() if p.requires_grad]
+    params = [p for p in model.parameters() if p.requires_grad] + ([s_re, s_im] if train_input else [])
+    if train_input:
+        sig.add('trainable input state')
+        ctx.label('trainable input state')
     if not params:
         ctx.label('no trainable parameter')
         return
     # forward value against the dense reference (C03 oracle) at the initial parameters
     U = c03.ref_unitary(resolved, n)
-    amp = np.vdot(tvec.numpy(), U @ svec.numpy())
+    amp = np.vdot(tvec.numpy(), U @ s_np)
     want_f = abs(amp) ** 2 if case['loss'] == 'abs2' else amp.real
     loss = model()
     ctx.close(float(loss), want_f, 1e-10, 'forward value = dense reference')
     # move every parameter to a generated point in [0, 2pi) and compare the gradient with finite differences of the forward value
     with torch.no_grad():
         for p in params:
-            p.copy_(torch.tensor(r.uniform(0, 2 * np.pi, size=tuple(p.shape))))
+            if p is not s_re and p is not s_im:
+                p.copy_(torch.tensor(r.uniform(0, 2 * np.pi, size=tuple(p.shape))))
     for p in params:
         p.grad = None
     loss = model()
+    # differentiate the same forward pass twice: the second result must equal the first (no state carried over between backward passes)
+    g1 = torch.autograd.grad(loss, params, retain_graph=True, allow_unused=True)
+    g2 = torch.autograd.grad(loss, params, retain_graph=True, allow_unused=True)
+    for x, y in zip(g1, g2):
+        if x is not None:
+            ctx.close(y, x, 0, 'two backward passes through one forward pass give the same gradient')
     loss.backward()
     got = [None if p.grad is None else p.grad.detach().numpy().copy() for p in params]
     want = fd_grad(lambda: model(), params)
@@ -207,7 +222,7 @@ def run_kl(ctx, case):
 
 
 # --------------------------------------------------------------------------------------------- PSD matrix functions
-SPECTRA = ['generic', 'repeated', 'clustered', 'wide', 'near_deficient']
+SPECTRA = ['generic', 'repeated', 'clustered', 'wide', 'near_deficient', 'deficient_sibling']
 
 
 @st.composite
@@ -241,10 +256,26 @@ def run_mf(ctx, case):
     nb = max(1, case['batch'])
     ctx.note(klass=fn, desc=[fn, spec, field, case['batch'], d], nontrivial=(spec != 'generic' or case['batch'] > 0), labels=[fn, spec, field, f'batch={case["batch"]}'])
     r = ref.rng(case['prng'])
+    sibling = (spec == 'deficient_sibling')
+    if sibling:
+        # a batch whose FIRST element is exactly rank deficient (outside the claim) next to full-rank elements (inside the claim):
+        # only the gradient with respect to the full-rank elements is judged
+        nb = max(2, nb)
+        case = dict(case, batch=nb)
+        if fn == 'logm':
+            fn = 'sqrtm'
     A0 = []
-    for _ in range(nb):
+    for ib in range(nb):
         V = ref.rand_unitary(r, d) if field == 'complex' else ref.rand_orthogonal(r, d).astype(np.complex128)
-        A0.append((V * spectrum(r, d, spec)) @ V.conj().T)
+        w = spectrum(r, d, 'generic' if sibling else spec)
+        if sibling and ib == 0:
+            w[0] = 0.0
+            A = (V * w) @ V.conj().T
+            # make the smallest eigenvalue exactly non-positive so that the library clamps it to exactly zero
+            A = A - 1e-15 * np.eye(d)
+        else:
+            A = (V * w) @ V.conj().T
+        A0.append(A)
     A0 = np.stack(A0)
     if field == 'real':
         A0 = A0.real
@@ -272,7 +303,7 @@ def run_mf(ctx, case):
         return (out * W).sum().real
     # forward value against an eigen-decomposition reference
     out = op(build()).detach().numpy().reshape(nb, d, d)
-    for i in range(nb):
+    for i in range(1 if sibling else 0, nb):
         w, v = np.linalg.eigh(A0[i])
         if fn == 'sqrtm':
             want = (v * np.sqrt(w)) @ v.conj().T
@@ -289,6 +320,9 @@ def run_mf(ctx, case):
     loss.backward()
     got = [p.grad.numpy().copy() for p in params]
     want = fd_grad(f, params, h=5e-5, order=4)  # spectra down to 1e-2 make the third derivative large: use the five-point stencil
+    if sibling:
+        got = [g[1:] for g in got]
+        want = [w_[1:] for w_ in want]
     compare_grads(ctx, got, want, f'{fn}: gradient = finite differences', 1e-6)
 
 
